@@ -28,4 +28,20 @@ func init() {
 			p.Rule += " Rounds 7-8: " + more
 		}
 	}
+	for id, more := range map[string]string{
+		"C04": "after a complete normal / going-away Close frame at a message boundary NetConn may read io.EOF.",
+		"C05": "stale writer handles used inside another goroutine's message; frame headers cut by a blocked flush of the write buffer while Pings and a Pong reply queue up; a Close that skips a final frame the transport cuts short, goroutines held at two hook points.",
+		"C06": "readers parked inside a frame whose rest arrives in front of the echo.",
+		"C08": "frames that exceed the limit and then stall short of their declared length; messages of 100000+ empty fragments with stack and heap sampled.",
+		"C10": "the 'returned late' bound is 4 s.",
+		"C11": "HTAB around list elements; several pipelined plus later messages compared exactly.",
+		"C13": "Host override x URL port grid; requests lost at the transport.",
+		"C15": "a malformed Pong frame is no answer.",
+		"C18": "Close after an idle deadline expiry must be a normal closure.",
+		"C19": "documents of 1-5 MiB; pool double-get rule; connections hammering the buffer pool.",
+	} {
+		if p := fw.Lookup(id); p != nil {
+			p.Rule += " Round 10: " + more
+		}
+	}
 }
